@@ -42,6 +42,11 @@ struct vm_cam_cfg
     int fail_start_at;                    // index of start call (per device) that fails, -1 never
     int fail_set;                         // set returns Device_Err
     int trigger;                          // frames gated by the software trigger
+    // a camera whose region of interest changes during a run (the runtime asks for the shape before every frame and stamps
+    // each frame with the shape delivered with it): from frame call `reshape_at` on the shape is reshape_w x reshape_h.
+    // mode 0: it changes between two frame calls; mode 1: while frame call `reshape_at` is pending, i.e. after the caller
+    // asked for the shape (only to a shape that needs no more bytes)
+    int reshape_at, reshape_mode; uint32_t reshape_w, reshape_h;
 };
 struct vm_store_cfg
 {
